@@ -473,6 +473,9 @@ func runWindow(g *liveGraph, progs [][]opD, clock *atomic.Uint64) (recs []rec, t
 			for t := range progs {
 				if count[t] < len(progs[t]) {
 					op := progs[t][count[t]]
+					if op.K == "z" { // reported as the first artifact of the archive
+						op = opD{K: "a", Prod: 0}
+					}
 					rc := rec{T: t, Op: op, Resp: respD{K: "fail"}, Note: "call did not return within the window deadline"}
 					if op.K == "a" {
 						rc.F, rc.Bad = g.prodF[op.Prod], g.prodB[op.Prod]
@@ -1310,8 +1313,8 @@ func main() {
 		cw := &windowD{Shape: shape, Threads: T, Jitter: *jitterFlag, Init: init0}
 		if r.Chance(3, 4) {
 			for p, t := range shape.PTypes {
-				if t == "file" || t == "image" {
-					cw.CLI = append(cw.CLI, p)
+				if t == "file" || t == "image" || ((t == "int" || t == "float" || t == "string" || t == "bool") && r.Bool()) {
+					cw.CLI = append(cw.CLI, p) // value from a command line flag (File / Image: loaded lazily by the first read)
 				}
 			}
 		}
